@@ -40,6 +40,8 @@ def run(tier, seed):
                 chk.notes.append('tool sandbox %s sees %r (expected %r): that availability is not exercised on this machine' % (mode, seen, K.EXPECT_TOOLS[mode]))
         # ---- T1: the generated dispatch chains against the real dispatchers (executed)
         t1, t1_bad = K.dispatcher_correspondence(chk, sb)
+        t1b, t1b_bad = K.clear_all_correspondence(chk, sb, 120 if tier == 'quick' else 1500)
+        t1 += t1b; t1_bad += t1b_bad
         # ---- triples
         r = chk.rng
         corpus = K.corpus_triples()
@@ -61,7 +63,7 @@ def run(tier, seed):
         tasks = []   # (triple, cfg list, mode)
         for t in full: tasks.append((t, cfgs, 'git'))
         for t in few: tasks.append((t, few_cfgs, 'git'))
-        other = corpus + [x for x in gen if K.has_text_conflict(x)][:n_other]
+        other = corpus + [x for x in crafted if x['src'].endswith('empty_source_vs_edit')][:n_other] + [x for x in gen if K.has_text_conflict(x)][:n_other]
         for mode in ('diff3', 'none'):
             for t in other: tasks.append((t, cfgs, mode))
         results = K.run_merge_tasks(sb, tasks)
